@@ -43,7 +43,7 @@ COUNT_FAULTS = ['count_off', 'count_nonnum', 'count_empty', 'hl01_gap', 'hl01_re
 def tier_config(tier):
     if tier == 'thorough':
         return {'runs': 60000, 'wall': 780, 'det_probe': 8}
-    return {'runs': 2400, 'wall': 100, 'det_probe': 4}
+    return {'runs': 10000, 'wall': 150, 'det_probe': 4}
 
 
 def gen_doc(rng, want_fix):
